@@ -18,6 +18,7 @@ import Y0.Lemmas.CtfSimplify
 import Y0.Lemmas.CtfFactor
 import Y0.Lemmas.CtfAncSpec
 import Y0.Lemmas.CtfDenValue
+import Y0.Lemmas.CtfCond
 
 namespace Y0.Ctf
 open Relation Y0.MG
@@ -600,6 +601,165 @@ theorem ancestralSetAfter_eq (g : MG Name) (cond : List Var) (root : Var) (A : L
           cases hA₁
           exact ⟨m, ⟨hmm, hmA⟩, rfl⟩
 
+/-! ### Def. 4.2 in full: the two passes separately, the conditioned variables, and the whole of `get_ancestral_components` -/
+
+/-- **first merge pass** (`_merge_frozen_sets_with_common_vertices`): the finest partition of the non-empty input sets
+closed under "share a graph vertex"; the output sets are pairwise disjoint on graph vertices (the invariant under which
+the second pass runs). -/
+theorem merge_common_spec (sets : List (List Var)) :
+    (∀ C ∈ mergeCommon sets, ∃ s ∈ sets, s ≠ [] ∧ ∀ x, x ∈ C ↔ ∃ t ∈ sets, OverlapClass sets s t ∧ x ∈ t) ∧
+    (∀ s ∈ sets, ∀ x ∈ s, ∃ C ∈ mergeCommon sets, x ∈ C) ∧
+    (∀ C ∈ mergeCommon sets, ∀ C' ∈ mergeCommon sets, ∀ a ∈ C, ∀ b ∈ C', a.name = b.name → C = C') := by
+  refine ⟨fun C hC => ?_, fun s hs x hx => ?_, fun C hC C' hC' a ha b hb hab =>
+    mergeCommon_base_disjoint sets C C' hC hC' a b ha hb hab⟩
+  · obtain ⟨s, hsn, hs, hchar⟩ := mergeBy_class sets shareBase C hC
+    have hne : s ≠ [] := by
+      obtain ⟨_, t, _, hR | hR⟩ := (mem_nodes_linkGraph sets shareBase s).1 hsn
+      · obtain ⟨a, ha, _⟩ := (shareBase_iff s t).1 hR
+        intro h0; rw [h0] at ha; cases ha
+      · obtain ⟨_, _, b, hb, _⟩ := (shareBase_iff t s).1 hR
+        intro h0; rw [h0] at hb; cases hb
+    refine ⟨s, hs, hne, fun x => ?_⟩
+    rw [hchar x]
+    constructor
+    · rintro ⟨t, hconn, hx⟩
+      exact ⟨t, ((mem_nodes_linkGraph _ _ _).1 (conn_mem_nodes sets shareBase s t hsn hconn)).1,
+        (conn_common_iff sets s t).1 hconn, hx⟩
+    · rintro ⟨t, _, hcl, hx⟩
+      exact ⟨t, (conn_common_iff sets s t).2 hcl, hx⟩
+  · obtain ⟨C, hC, hchar⟩ := mergeBy_of_node sets shareBase s (mem_nodes_common sets s hs x hx)
+    exact ⟨C, hC, (hchar x).2 ⟨s, .refl, hx⟩⟩
+
+/-- **second merge pass** (`_merge_frozen_sets_linked_by_bidirectional_edges`, after `fix:` F8b): the finest partition
+of the input sets closed under "a bidirected edge of `G` joins a vertex of one to a vertex of the other" — an edge with
+an endpoint outside every input set links nothing. -/
+theorem merge_bidirected_spec (g : MG Name) (sets : List (List Var)) :
+    (∀ C ∈ mergeBidirected g sets, ∃ s ∈ sets, ∀ x, x ∈ C ↔ ∃ t ∈ sets, BiClass g sets s t ∧ x ∈ t) ∧
+    (∀ s ∈ sets, ∃ C ∈ mergeBidirected g sets, ∀ x ∈ s, x ∈ C) := by
+  refine ⟨fun C hC => ?_, fun s hs => ?_⟩
+  · obtain ⟨s, hsn, hs, hchar⟩ := mergeBy_class sets (biLinked g) C hC
+    refine ⟨s, hs, fun x => ?_⟩
+    rw [hchar x]
+    constructor
+    · rintro ⟨t, hconn, hx⟩
+      exact ⟨t, ((mem_nodes_linkGraph _ _ _).1 (conn_mem_nodes sets (biLinked g) s t hsn hconn)).1,
+        (conn_bi_iff g sets s t).1 hconn, hx⟩
+    · rintro ⟨t, _, hcl, hx⟩
+      exact ⟨t, (conn_bi_iff g sets s t).2 hcl, hx⟩
+  · obtain ⟨C, hC, hchar⟩ := mergeBy_of_node sets (biLinked g) s (mem_nodes_bidirected g sets s hs)
+    exact ⟨C, hC, fun x hx => (hchar x).2 ⟨s, .refl, hx⟩⟩
+
+/-- what `minimize_counterfactual` returns is `‖x‖` for every kind of variable -/
+theorem minimisedTo_of_minimize (g : MG Name) (x m : Var) (h : minimize g x = .ok m) : MinimisedTo g x m := by
+  by_cases hcf : x.isCf = true
+  · right
+    refine ⟨?_, minimize_spec g x m hcf h⟩
+    simpa [Var.isCf] using hcf
+  · left
+    have hcf' : x.isCf = false := by simpa using hcf
+    refine ⟨by simpa [Var.isCf] using hcf', (minimize_wf g x m h).2.2.2.2 hcf'⟩
+
+/-- **`X_*(W_t) = V(‖X_*‖ ∩ An(W_t))`** (`_get_conditioned_variables_in_ancestral_set`).
+Soundness: every returned vertex is the vertex of a minimised conditioned variable that is a member of `An(W_t)`
+(Def. 2.1).  Completeness: the vertex of every minimised conditioned variable that equals (`==`) a member of `An(W_t)` is
+returned — for subscript lists in the canonical `Iv.lt` order of the line protocol, in which `==` of two Python frozensets
+is structural equality of the model. -/
+theorem cond_in_ancestral_set_spec (g : MG Name) (hg : g.WF) (cond : List Var) (root : Var) (c : List Name)
+    (h : condInAncestralSet g cond root = .ok c) :
+    (∀ n ∈ c, CondVertex g cond root n) ∧
+    (∀ x ∈ cond, ∀ m, minimize g x = .ok m → (∃ w, IsCtfAncestor g root w ∧ SameVar m w) →
+      x.ivs.Pairwise (fun a b => Iv.lt a b = true) → root.ivs.Pairwise (fun a b => Iv.lt a b = true) →
+      m.name ∈ c) := by
+  unfold condInAncestralSet minimizeSet at h
+  simp only [bind, Except.bind] at h
+  cases hm : cond.mapM (minimize g) with
+  | error e => rw [hm] at h; cases h
+  | ok ms =>
+    rw [hm] at h
+    simp only [pure, Except.pure] at h
+    cases ha : ctfAncestors g root with
+    | error e => rw [ha] at h; cases h
+    | ok A₀ =>
+      rw [ha] at h
+      simp only [Except.ok.injEq] at h
+      subst h
+      obtain ⟨hsound, hcomplete⟩ := ctfAncestors_all g hg root A₀ ha
+      have hms := mapM_ok_mem _ _ _ hm
+      constructor
+      · intro n hn
+        simp only [mem_dedup', List.mem_map, List.mem_filter, mem'_iff] at hn
+        obtain ⟨m, ⟨hmm, hmA⟩, rfl⟩ := hn
+        obtain ⟨x, hx, hxm⟩ := (hms m).1 hmm
+        exact ⟨x, hx, m, minimisedTo_of_minimize g x m hxm, ⟨m, (hsound m hmA).1, rfl, rfl, rfl, fun _ => Iff.rfl⟩, rfl⟩
+      · intro x hx m hxm ⟨w, hw, hsame⟩ hsx hsr
+        simp only [mem_dedup', List.mem_map, List.mem_filter, mem'_iff]
+        refine ⟨m, ⟨(hms m).2 ⟨x, hx, hxm⟩, ?_⟩, rfl⟩
+        obtain ⟨w', hw', hsame'⟩ := hcomplete w hw
+        -- `m` and `w'` have the same members, and both subscript lists are sorted sublists
+        have hmw : m = w' := by
+          obtain ⟨P, hP⟩ := (hsound w' hw').2
+          have hsw : w'.ivs.Pairwise (fun a b => Iv.lt a b = true) := by rw [hP]; exact hsr.filter _
+          have hsm : m.ivs.Pairwise (fun a b => Iv.lt a b = true) := by
+            rcases minimize_eq g x m hxm with ⟨_, rfl⟩ | ⟨_, A, _, rfl⟩
+            · exact hsx
+            · exact hsx.filter _
+          have hivs : m.ivs = w'.ivs := sorted_ivs_ext _ _ hsm hsw (fun i => by
+            rw [hsame.2.2.2 i, ← hsame'.2.2.2 i])
+          have h1 : m.name = w'.name := by rw [hsame.1, hsame'.1]
+          have h2 : m.star = w'.star := by rw [hsame.2.1, hsame'.2.1]
+          have h3 : m.isIv = w'.isIv := by rw [hsame.2.2.1, hsame'.2.2.1]
+          cases m; cases w'
+          simp only at h1 h2 h3 hivs
+          subst h1; subst h2; subst h3; subst hivs
+          rfl
+        rw [hmw]; exact hw'
+
+/-- **Def. 4.2, all of `get_ancestral_components`.**  The ancestral sets are, root by root, `An(W_t)` of Def. 2.1 in the
+graph without the edges out of `X_*(W_t)` (sound, and complete up to `==`), where `X_*(W_t)` is characterised by
+`cond_in_ancestral_set_spec`; and the result is the finest partition of their union closed under overlap and bidirected
+adjacency within the sets (the three clauses of `ancestral_components_spec`). -/
+theorem ancestral_components_full (g : MG Name) (hg : g.WF) (cond roots : List Var) (out : List (List Var))
+    (h : ancestralComponents g cond roots = .ok out) :
+    ∃ sets : List (List Var),
+      List.Forall₂ (fun root A => ∃ c, condInAncestralSet g cond root = .ok c ∧
+          (∀ n ∈ c, CondVertex g cond root n) ∧
+          (∀ w ∈ A, IsCtfAncestor (g.removeOutEdges c) root w) ∧
+          (∀ w, IsCtfAncestor (g.removeOutEdges c) root w → ∃ w' ∈ A, SameVar w' w)) roots sets ∧
+      (∀ C ∈ out, ∃ s ∈ sets, s ≠ [] ∧ ∀ x, x ∈ C ↔ ∃ t ∈ sets, SameComponent g sets s t ∧ x ∈ t) ∧
+      (∀ s ∈ sets, ∀ x ∈ s, ∃ C ∈ out, x ∈ C) ∧
+      out.Pairwise (fun C D => ∀ a ∈ C, ∀ b ∈ D, a.name ≠ b.name) := by
+  obtain ⟨sets, hsets, rfl⟩ := ancestral_components_eq g cond roots out h
+  obtain ⟨h1, h2, h3⟩ := ancestral_components_spec g sets
+  refine ⟨sets, ?_, h1, h2, h3⟩
+  -- root by root
+  clear h h1 h2 h3
+  induction roots generalizing sets with
+  | nil =>
+    simp only [List.mapM_nil, pure, Except.pure, Except.ok.injEq] at hsets
+    subst hsets
+    exact List.Forall₂.nil
+  | cons root roots ih =>
+    simp only [List.mapM_cons, bind, Except.bind] at hsets
+    cases hA : ancestralSetAfter g cond root with
+    | error e => rw [hA] at hsets; cases hsets
+    | ok A =>
+      rw [hA] at hsets
+      cases hrest : roots.mapM (ancestralSetAfter g cond) with
+      | error e => rw [hrest] at hsets; cases hsets
+      | ok rest =>
+        rw [hrest] at hsets
+        simp only [pure, Except.pure, Except.ok.injEq] at hsets
+        subst hsets
+        refine List.Forall₂.cons ?_ (ih rest hrest)
+        unfold ancestralSetAfter at hA
+        simp only [bind, Except.bind] at hA
+        cases hc : condInAncestralSet g cond root with
+        | error e => rw [hc] at hA; cases hA
+        | ok c =>
+          rw [hc] at hA
+          obtain ⟨hs, hcpl⟩ := ctfAncestors_all (g.removeOutEdges c) (wf_fromEdges _ _ _) root A hA
+          exact ⟨c, rfl, (cond_in_ancestral_set_spec g hg cond root c hc).1, fun w hw => (hs w hw).1, hcpl⟩
+
 /-! ## 5. SIMPLIFY (Algorithm 1): probability preserved, `None` only for probability 0
 
 The full statement quantifies over all events.  It is FALSE for the model (hence for the code) on events that contain a
@@ -795,6 +955,17 @@ example : componentsFromSets (MG.fromEdges [] [] [(0, 2), (1, 2)]) [[{ name := 0
 -- and a bidirected edge between members does merge
 example : componentsFromSets (MG.fromEdges [] [] [(0, 1)]) [[{ name := 0 }], [{ name := 1 }]] =
     [[{ name := 0 }, { name := 1 }]] := by decide
+
+-- conditioned variables (Def. 4.2): X is a member of An(Y) but not of An(Y_x); conditioning on X cuts the edges out of X;
+-- a conditioned X_w (W is not an ancestor of X) only matches the member X after minimisation
+example : condInAncestralSet fig2a [{ name := 0 }] { name := 1 } = .ok [0] := by decide
+example : condInAncestralSet fig2a [{ name := 0 }] { name := 1, ivs := [iv 0] } = .ok [] := by decide
+example : condInAncestralSet fig2a [{ name := 0, ivs := [iv 2] }] { name := 1 } = .ok [0] := by decide
+example : ancestralSetAfter fig2a [{ name := 0 }] { name := 1 } = .ok [{ name := 1 }, { name := 3 }, { name := 2 }] := by decide
+example : ancestralComponents fig2a [{ name := 0 }] [{ name := 1 }, { name := 0 }] =
+    .ok [[{ name := 1 }, { name := 3 }, { name := 2 }, { name := 0 }]] := by decide
+example : mergeCommon [[{ name := 0 }], [{ name := 0, ivs := [iv 1] }], [{ name := 2 }]] =
+    [[{ name := 0 }, { name := 0, ivs := [iv 1] }], [{ name := 2 }]] := by decide
 
 /-! ### the hypotheses of the semantic theorems are satisfiable: a concrete compatible functional SCM on X -> Y -/
 
